@@ -18,7 +18,7 @@ ASSUMPTIONS = [
     "'begins/ends with whitespace or comment' is evaluated on the first/last child that has text (zero-width metas skipped)",
 ]
 BOUND = dict(parsefam_quick="see C02", quick="parse family quick bound (see C02) with fixtures<=400B", thorough="parse family thorough bound, fixtures<=2000B")
-FLOOR = {"quick": 15000, "thorough": 80000}
+FLOOR = {"quick": 6000, "thorough": 30000}
 CHUNK = 2
 
 
